@@ -784,6 +784,9 @@ class ExprMixin(object):
             own = self.spec.field_owner(cls, attr)
 
             def k(s2):
+                for cn in self.spec.mro(cls):
+                    if attr in self.spec.classes[cn].const_attrs:
+                        return self.ok(s2, mk_py(self.spec.classes[cn].const_attrs[attr]))
                 if own is not None:
                     val = self.read_field(s2, v.z, cls, attr, node)
                     if isinstance(val.ty, TRef):
